@@ -90,3 +90,63 @@ package resolve
 //@   unfold Node.Compare
 //@   ensures imp(a.Compare(b) <= 0 && b.Compare(c) <= 0, a.Compare(c) <= 0)
 //@   property C13
+
+// ---------------------------------------------------------------------------
+// C14: the in-memory client reports what was last added.
+// Verified as function contracts (VC mode): AddVersion stores the requirement
+// list under the version key, makes the package and every required package
+// known, and when a version with the same key is already listed it is replaced
+// by the new value (attributes included). Lookups return what the maps hold.
+// Not covered here: that an inserted version is present after the sort (needs
+// the permutation contract of sort.Slice) and the sortedness of the lists.
+
+// The sort helpers permute the elements of their argument (and build private
+// data with the semver parser); callers see exactly that frame.
+//@ func SortVersions
+//@   modifies E:resolve.Version alloc H:semver.* H:*semver.* H:[]* H:bool H:map[resolve.VersionKey]*semver.Version
+//@   modifies E:semver.* E:string E:uint8 E:any B:* M:map[resolve.VersionKey]*semver.Version M:map[string]* G:semver.*
+//@   property C14
+//@ func SortDependencies
+//@   modifies E:resolve.RequirementVersion E:dep.AttrKey H:[]* H:dep.Type.* H:attr.Set.* H:resolve.RequirementVersion.* M:map[uint8]string B:* alloc
+//@   property C14
+
+//@ func (*LocalClient).AddVersion
+//@   requires lc != nil && lc.PackageVersions != nil && lc.imports != nil
+//@   ensures imp(!v.HasAttr(version.Deleted), has(lc.imports, v.VersionKey) && lc.imports[v.VersionKey] == deps)
+//@   ensures imp(!v.HasAttr(version.Deleted), has(lc.PackageVersions, v.PackageKey))
+//@   ensures imp(!v.HasAttr(version.Deleted),
+//@           forall(j, 0, len(old(lc.PackageVersions[v.PackageKey])),
+//@               imp(old(lc.PackageVersions[v.PackageKey][j].VersionKey) == v.VersionKey,
+//@                   j < len(lc.PackageVersions[v.PackageKey]) && lc.PackageVersions[v.PackageKey][j] == v)))
+//@   ensures imp(!v.HasAttr(version.Deleted), forall(j, 0, len(deps), has(lc.PackageVersions, deps[j].PackageKey)))
+//@   loop 0
+//@     invariant forall(j, 0, rangeidx + 1, imp(old(versions[j].VersionKey) == v.VersionKey, versions[j] == v))
+//@     invariant forall(j, rangeidx + 1, len(versions), versions[j] == old(versions[j]))
+//@     invariant imp(!existed, forall(j, 0, rangeidx + 1, old(versions[j].VersionKey) != v.VersionKey))
+//@   loop 1
+//@     invariant has(lc.PackageVersions, v.PackageKey) && lc.PackageVersions[v.PackageKey] == versions
+//@     invariant has(lc.imports, v.VersionKey) && lc.imports[v.VersionKey] == deps
+//@     invariant forall(j, 0, rangeidx + 1, has(lc.PackageVersions, deps[j].PackageKey))
+//@     invariant forall(j, 0, len(old(lc.PackageVersions[v.PackageKey])),
+//@               imp(old(lc.PackageVersions[v.PackageKey][j].VersionKey) == v.VersionKey, j < len(versions) && versions[j] == v))
+//@   property C14
+
+//@ func (*LocalClient).Version
+//@   requires lc != nil
+//@   ensures imp(result1 == nil, result0.VersionKey == vk)
+//@   ensures imp(result1 != nil, forall(j, 0, len(lc.PackageVersions[vk.PackageKey]), lc.PackageVersions[vk.PackageKey][j].VersionKey != vk))
+//@   loop 0
+//@     invariant forall(j, 0, rangeidx + 1, lc.PackageVersions[vk.PackageKey][j].VersionKey != vk)
+//@   property C14
+
+//@ func (*LocalClient).Versions
+//@   requires lc != nil
+//@   ensures iff(result1 == nil, has(lc.PackageVersions, pk))
+//@   ensures imp(result1 == nil, result0 == lc.PackageVersions[pk])
+//@   property C14
+
+//@ func (*LocalClient).Requirements
+//@   requires lc != nil
+//@   ensures iff(result1 == nil, has(lc.imports, vk))
+//@   ensures imp(result1 == nil, result0 == lc.imports[vk])
+//@   property C14
